@@ -80,7 +80,7 @@ def _frame(job):
     sig = {"form": form, "control": ncf}
     detail = {"seed": seed, "n": n, "n_boot": nb, "levels": levels, "features": feats}
     metrics = rec_count if form == "callable" else {"cnt": rec_count}
-    rs = rnd.randint(0, 10 ** 6)
+    rs = [0, 1, 2 ** 32 - 1, rnd.randint(0, 10 ** 6), rnd.randint(0, 10 ** 6)][seed % 5]      # edge seeds included (0 is a legitimate integer seed)
     try:
         del LOG[:]
         mf = fm.MetricFrame(metrics=metrics, y_true=ids, y_pred=ids, sensitive_features=sfa, control_features=cfa, n_boot=nb, ci_quantiles=qs, random_state=rs)
